@@ -42,9 +42,11 @@ Definition is_content_entry (e : entry) : bool :=
 Definition is_structure_entry (e : entry) : bool :=
   match e with EContent _ _ => false | EStructure _ _ => true end.
 
-(* the entries of one kind (used by the repaired content / structure update modes) *)
+(* the entries of one kind (content / structure update modes keep the other kind). Written so
+   that it is the HashMap filter for ANY association list, shadowed bindings included *)
 Definition filter_entries (f : entry -> bool) (b : baseline) : baseline :=
-  filter (fun p => f (snd p)) b.
+  fold_right (fun p acc => if f (snd p) then (fst p, snd p) :: remove (fst p) acc
+                           else remove (fst p) acc) [] b.
 
 (* extensional equality and inclusion *)
 Definition bl_eq (a b : baseline) : Prop := forall k, lookup k a = lookup k b.
